@@ -19,6 +19,7 @@ Clauses(c) ==
         \cup (IF c.sameclass = 1 THEN {} ELSE {"C14-copy-of-other-class"})
         \cup (IF c.shared = 0 THEN {} ELSE {"C14-copy-shares-mutable-container"})
         \cup (IF c.total = Sum(c.post.xs) THEN {} ELSE {"C14-property-stale-on-copy"})
+        \cup (IF c.total2 = Sum(c.post.xs) THEN {} ELSE {"C14-depends_on-property-stale-on-copy"})
         \cup (IF StEq(c.orig_after, c.pre) THEN {} ELSE {"C14-copying-changed-the-original"}))
   ELSE LET r == Step(c.pre, c.op, c.v) IN
        (IF StEq(c.post, r.st) THEN {} ELSE {"C14-state"})
@@ -27,6 +28,7 @@ Clauses(c) ==
        \cup (IF c.dyn = r.dyn THEN {} ELSE {"C14-items-handler"})
        \cup (IF c.pobs = r.pobs THEN {} ELSE {"C14-declared-post-init-observer"})
        \cup (IF c.total = Sum(c.post.xs) THEN {} ELSE {"C14-property-dependency"})
+       \cup (IF c.total2 = Sum(c.post.xs) THEN {} ELSE {"C14-depends_on-property-dependency"})
 Judge == i <= 0 \/ LET f == Clauses(Trace[i]) IN IF f = {} THEN TRUE ELSE PrintT(<<"REJECT", i, f>>)
 AllJudged == TLCGet("distinct") = N + NB + 1
 =============================================================================
